@@ -208,10 +208,15 @@ static inline size_t varintAdaptiveMaxSize(size_t count) {
         return 1; /* Just header byte */
     }
 
-    /* Worst case: TAGGED encoding with 1 byte header + 9 bytes per value
+    /* Worst case over every encoding varintAdaptiveEncode() can select:
      * Header: 1 byte encoding type
-     * Data: worst case is tagged (9 bytes per uint64_t) */
-    return 1 + (count * 9);
+     * TAGGED / DELTA: 9 bytes per value
+     * FOR / PFOR: up to 35 bytes of tagged header fields (min, counts, the
+     *   exceptions of the at most count/20 + 1 outliers) + 8 bytes per value
+     * DICT: the selection estimates uniqueness from a sample, so the
+     *   dictionary can hold up to count entries: tagged size (5) + count
+     *   entries of 9 bytes + tagged count (9) + count indices of 4 bytes */
+    return 1 + 35 + (count * 13);
 }
 
 /* Calculate compression ratio.
